@@ -3,8 +3,11 @@ package props
 import (
 	"encoding/json"
 	"fmt"
+	"runtime"
 	"sort"
 	"strings"
+	"sync"
+	"sync/atomic"
 	"testing"
 	"time"
 
@@ -549,4 +552,121 @@ func TestC19KnownS17b(t *testing.T) {
 	case isOpen("S17b"):
 		col.Note("known finding S17b no longer reproduces")
 	}
+}
+
+// TestC19Atomic: "applies as one atomic unit" as seen by the other goroutines of the application:
+// while PatchByJSON runs, every read of the document shows the value before the patch or the target,
+// never a mixture.
+func TestC19Atomic(t *testing.T) {
+	col := stats.New("C19", t.Name(),
+		"one document replica; a chain of 2-6 PatchByJSON calls whose targets are generated objects (as in TestC19Local) widened by 5-40 flat members that change from target to target, so that each patch is a transaction of many operations; 1-3 reader goroutines read the whole value (GetValue) in a loop while the patches run; "+
+			"oracle: every value a reader saw JSON-equals the initial value or one of the targets, and per reader the positions in the chain never go backwards; no panic; non-trivial = at least one read started while a patch call was in flight (atomic flag) and the chain has a patch of >=5 operations; distinct = hash of the target chain")
+	col.Assume("targets contain no JSON null (stated domain of C19); the schedule is the Go scheduler's: how many reads fall inside a patch is measured, not controlled")
+	if isOpen("S26") {
+		t.Skip("reads concurrent with writes are known finding S26")
+	}
+	checkProp(t, "C19", col, func(c *caseCtx) {
+		rt := c.rt
+		idseed := rapid.Uint64Range(1, 1<<40).Draw(rt, "idseed")
+		sim.SeedIDs(idseed)
+		w := sim.NewWorld(sim.Document, 1, 1)
+		doc := w.Reps[0].DT.(orda.Document)
+		chain := rapid.IntRange(2, 6).Draw(rt, "chain")
+		readers := rapid.IntRange(1, 3).Draw(rt, "readers")
+		var targets []string
+		for i := 0; i < chain; i++ {
+			obj := c19Object(rt, fmt.Sprintf("t%d", i), 2)
+			for j := rapid.IntRange(5, 40).Draw(rt, fmt.Sprintf("wide%d", i)); j > 0; j-- {
+				obj[fmt.Sprintf("w%d", j)] = fmt.Sprintf("t%d.%d", i, j)
+			}
+			b, _ := json.Marshal(obj)
+			targets = append(targets, string(b))
+		}
+		c.j.Header = map[string]interface{}{"id_seed": idseed, "targets": targets, "readers": readers}
+		allowed := []string{sim.Canon(sim.Normalize(doc.GetValue()))}
+		for _, tg := range targets {
+			var v interface{}
+			_ = json.Unmarshal([]byte(tg), &v)
+			allowed = append(allowed, sim.Canon(v))
+		}
+		var inPatch, stop int32
+		var duringPatch int64
+		var mu sync.Mutex
+		var problems []string
+		var wg sync.WaitGroup
+		for r := 0; r < readers; r++ {
+			wg.Add(1)
+			go func(r int) {
+				defer wg.Done()
+				defer func() {
+					if p := recover(); p != nil {
+						mu.Lock()
+						problems = append(problems, fmt.Sprintf("reader %d panicked: %v", r, p))
+						mu.Unlock()
+					}
+				}()
+				pos := 0
+				for atomic.LoadInt32(&stop) == 0 {
+					during := atomic.LoadInt32(&inPatch) == 1
+					got := sim.Canon(sim.Normalize(doc.GetValue()))
+					if during {
+						atomic.AddInt64(&duringPatch, 1)
+					}
+					at := -1
+					for i := pos; i < len(allowed); i++ {
+						if allowed[i] == got {
+							at = i
+							break
+						}
+					}
+					if at < 0 {
+						mu.Lock()
+						problems = append(problems, fmt.Sprintf("reader %d saw a value that is neither the value before a patch nor its target (position in the chain so far: %d): %s", r, pos, got))
+						mu.Unlock()
+						return
+					}
+					pos = at
+					runtime.Gosched()
+				}
+			}(r)
+		}
+		maxOps := 0
+		var perr string
+		for i, tg := range targets {
+			atomic.StoreInt32(&inPatch, 1)
+			ops, err := doc.PatchByJSON(tg)
+			atomic.StoreInt32(&inPatch, 0)
+			if err != nil {
+				perr = fmt.Sprintf("patch %d failed: %v", i, err)
+				break
+			}
+			if len(ops) > maxOps {
+				maxOps = len(ops)
+			}
+			for y := rapid.IntRange(0, 3).Draw(rt, fmt.Sprintf("yield%d", i)); y > 0; y-- {
+				runtime.Gosched()
+			}
+		}
+		atomic.StoreInt32(&stop, 1)
+		if watchdog(20*time.Second, wg.Wait) {
+			c.failf("a reader goroutine never returned from reading the document")
+		}
+		if perr != "" {
+			c.failf("%s", perr)
+		}
+		if len(problems) > 0 {
+			c.failf("%s", problems[0])
+		}
+		if got := sim.Canon(sim.Normalize(doc.GetValue())); got != allowed[len(allowed)-1] {
+			c.failf("the document is not the last target at the end: %s", got)
+		}
+		var labels []string
+		if duringPatch > 0 {
+			labels = append(labels, "reads-during-a-patch")
+		}
+		labels = append(labels, fmt.Sprintf("readers=%d", readers))
+		col.Case(duringPatch > 0 && maxOps >= 5, strings.Join(targets, ";"), labels, func() interface{} {
+			return map[string]interface{}{"chain": chain, "readers": readers, "largest_patch_ops": maxOps, "reads_during_patches": duringPatch}
+		})
+	})
 }
